@@ -300,13 +300,7 @@ func initBtreeModels() {
 			check := func(st *State, cursor, when string) {
 				env := envFor(st, cursor)
 				for _, inv := range spec.Invs {
-					g, facts := e.evalClause(inv.Expr, env)
-					st2 := st
-					if len(facts) > 0 {
-						st2 = st.clone()
-						st2.pc = append(st2.pc, facts...)
-					}
-					e.obligeK(fmt.Sprintf("loop-call%d/invariant-%s", k, when), fmt.Sprint(inv.Ord), append(append([]string{}, e.con.Tags...), inv.Tags...), st2, g, fmt.Sprintf("loop-call %d invariant %s", k, inv.Src))
+					e.prove(fmt.Sprintf("loop-call%d/invariant-%s", k, when), fmt.Sprint(inv.Ord), append(append([]string{}, e.con.Tags...), inv.Tags...), st, inv.Expr, env, fmt.Sprintf("loop-call %d invariant %s", k, inv.Src))
 				}
 			}
 			check(s, start, "entry")
